@@ -34,13 +34,13 @@ def impl_forms(trait):
     p = trait_path(trait)
     if trait in BINOPS:
         return [lambda ty: "%s : %s<%s, Output = %s>" % (ty, p, ty, ty),
-                lambda ty: "for<'a> %s : %s<&'a %s, Output = %s>" % (ty, p, ty, ty),
-                lambda ty: "for<'a> &'a %s : %s<%s, Output = %s>" % (ty, p, ty, ty),
-                lambda ty: "for<'a> &'a %s : %s<&'a %s, Output = %s>" % (ty, p, ty, ty)]
+                lambda ty: "for<'__a> %s : %s<&'__a %s, Output = %s>" % (ty, p, ty, ty),
+                lambda ty: "for<'__a> &'__a %s : %s<%s, Output = %s>" % (ty, p, ty, ty),
+                lambda ty: "for<'__a> &'__a %s : %s<&'__a %s, Output = %s>" % (ty, p, ty, ty)]
     if trait.endswith("Assign"):
-        return [lambda ty: "%s : %s<%s>" % (ty, p, ty), lambda ty: "for<'a> %s : %s<&'a %s>" % (ty, p, ty)]
+        return [lambda ty: "%s : %s<%s>" % (ty, p, ty), lambda ty: "for<'__a> %s : %s<&'__a %s>" % (ty, p, ty)]
     if trait in UNOPS:
-        return [lambda ty: "%s : %s<Output = %s>" % (ty, p, ty), lambda ty: "for<'a> &'a %s : %s<Output = %s>" % (ty, p, ty)]
+        return [lambda ty: "%s : %s<Output = %s>" % (ty, p, ty), lambda ty: "for<'__a> &'__a %s : %s<Output = %s>" % (ty, p, ty)]
     return [lambda ty: "%s : %s" % (ty, p)]
 
 
